@@ -380,3 +380,318 @@ theorem parse_format (origin hash : Bytes) (n : Int) (ho : (10 : UInt8) ∉ orig
   simp [hh, extOk]
 
 end Checkpoint
+
+/-! ### signTreeHead opens -/
+namespace Checkpoint
+open Codec TilePath
+
+theorem digitallySigned_eq (s : Bytes) (h : s.length < 65536) :
+    digitallySigned s = some (4 :: 3 :: (toBE 2 s.length ++ s)) := by
+  unfold digitallySigned encSpec encChecked
+  have hf : Fits (schemaOf digitallySignedSpec) (valuesOf digitallySignedSpec s) := by
+    show Fits [.fixed 1, .fixed 1, .lenp 2] [[4], [3], s]
+    simp only [Fits, Field.fits]; exact ⟨rfl, rfl, h, trivial⟩
+  rw [if_pos hf]
+  show some (enc [.fixed 1, .fixed 1, .lenp 2] [[4], [3], s]) = _
+  simp [enc, encField]
+
+theorem injectedBlob_eq (time : Int) (s : Bytes) :
+    injectedBlob time (4 :: 3 :: (toBE 2 s.length ++ s)) =
+      NoteSig.encode { timestamp := u64 time, hashAlg := 4, sigAlg := 3, signature := s } := by
+  unfold injectedBlob NoteSig.encode
+  rw [noteSigSchema_eq]
+  show enc [.fixed 8] [toBE 8 (u64 time)] ++ _ = enc [.fixed 8, .fixed 1, .fixed 1, .lenp 2] [toBE 8 (u64 time), toBE 1 4, toBE 1 3, s]
+  simp only [enc, encField, List.append_nil]
+  have h4 : toBE 1 4 = [4] := by decide
+  have h3 : toBE 1 3 = [3] := by decide
+  rw [h4, h3]
+  simp
+
+theorem symCv_self (key : PubKey) (m : Bytes) : symCv key m (symSign key m) = true := by simp [symCv]
+
+theorem symSign_length (key : PubKey) (m : Bytes) : (symSign key m).length = 5 + key.id.length + m.length := by
+  simp [symSign, toBE_length]; omega
+
+theorem sthInput_length {n ts : Nat} {r a : Bytes} (h : sthInput n ts r = some a) : a.length = 50 := by
+  unfold sthInput at h
+  split at h
+  · rename_i hr
+    simp only [Option.some.injEq] at h
+    subst h
+    simp [sthSchema, enc, encField, toBE_length, hr]
+  · cases h
+
+theorem sigTimestamp_encode (x : NoteSig) (h : x.timestamp ≤ 9223372036854775807) :
+    sigTimestamp x.encode = some (Int.ofNat x.timestamp) := by
+  unfold sigTimestamp NoteSig.encode
+  rw [noteSigSchema_eq]
+  have : enc [.fixed 8, .fixed 1, .fixed 1, .lenp 2] [toBE 8 x.timestamp, toBE 1 x.hashAlg, toBE 1 x.sigAlg, x.signature] =
+      enc [.fixed 8] [toBE 8 x.timestamp] ++ enc [.fixed 1, .fixed 1, .lenp 2] [toBE 1 x.hashAlg, toBE 1 x.sigAlg, x.signature] := by
+    simp [enc]
+  rw [this, dec_enc [.fixed 8] _ _ (by simp only [Fits, Field.fits, toBE_length]; exact ⟨trivial, trivial⟩)]
+  simp only
+  rw [fromBE_toBE 8 _ (by have : (256:Nat)^8 = 18446744073709551616 := by decide
+                          omega)]
+  rw [if_neg (by unfold maxInt64; omega)]
+
+/-- the unknown-key lines at the front of a note are skipped by `note.Open` -/
+theorem openLoop_skip (known : List NoteVerifier) (text : Bytes) (g rest : List SigLine) (cnt : Nat)
+    (seen : List (Bytes × Nat)) (acc : List SigLine)
+    (hunk : ∀ s ∈ g, known.filter (fun v => v.name = s.name ∧ v.hash = s.hash) = [])
+    (hcnt : cnt + g.length ≤ 100) :
+    openLoop known text (g ++ rest) cnt seen acc = openLoop known text rest (cnt + g.length) seen acc := by
+  induction g generalizing cnt with
+  | nil => simp
+  | cons s gs ih =>
+    simp only [List.cons_append, openLoop]
+    rw [if_neg (by simp at hcnt; omega)]
+    rw [hunk s (by simp)]
+    simp only
+    rw [ih (cnt + 1) (fun x hx => hunk x (by simp [hx])) (by simp at hcnt ⊢; omega)]
+    congr 1
+    simp; omega
+
+end Checkpoint
+
+namespace Checkpoint
+open Codec TilePath
+
+theorem subtreeMessage_some (name origin hash : Bytes) (t n : Nat) (h1 : 1 ≤ name.length ∧ name.length ≤ 255)
+    (h2 : origin.length ≤ 255) (ht : t ≤ 9223372036854775807) (hh : hash.length = 32) :
+    ∃ m, subtreeMessage name t origin n hash = some m := by
+  unfold subtreeMessage
+  rw [if_neg (by unfold maxInt64; omega)]
+  unfold encChecked
+  rw [if_pos]
+  · exact ⟨_, rfl⟩
+  · simp only [Fits, Field.fits, toBE_length]
+    refine ⟨by decide, by omega, trivial, by omega, trivial, trivial, hh, trivial⟩
+
+/-- the RFC 6962 note signature `signTreeHead` produces verifies -/
+theorem rfc_sig_verifies (name hash sth : Bytes) (key : PubKey) (n time : Int)
+    (hparse : parseCheckpoint (formatCheckpoint { origin := name, n := n, hash := hash, ext := [] }) =
+      some { origin := name, n := n, hash := hash, ext := [] })
+    (hk : key.kind = .ecdsa) (ht0 : 0 ≤ time) (ht1 : time ≤ 9223372036854775807)
+    (hsth : sthInput n.toNat time.toNat hash = some sth) (hsl : (symSign key sth).length < 65536) :
+    parseNoteSig (NoteSig.encode { timestamp := time.toNat, hashAlg := 4, sigAlg := 3, signature := symSign key sth }) =
+      some { timestamp := time.toNat, hashAlg := 4, sigAlg := 3, signature := symSign key sth } ∧
+    verifier symCv name key (formatCheckpoint { origin := name, n := n, hash := hash, ext := [] })
+      (NoteSig.encode { timestamp := time.toNat, hashAlg := 4, sigAlg := 3, signature := symSign key sth }) = true := by
+  have hxwf : NoteSig.WF { timestamp := time.toNat, hashAlg := 4, sigAlg := 3, signature := symSign key sth } :=
+    ⟨by show time.toNat < _; omega, by show (4 : Nat) < 256; decide, by show (3 : Nat) < 256; decide, hsl⟩
+  have hpx := parseNoteSig_encode _ hxwf []
+  rw [List.append_nil, if_pos rfl] at hpx
+  refine ⟨hpx, ?_⟩
+  rw [verifier_iff]
+  refine ⟨_, _, 3, hparse, rfl, rfl, hpx, rfl, by rw [hk]; rfl, rfl, ?_⟩
+  unfold independentVerify
+  simp only [hsth]
+  exact symCv_self _ _
+
+/-- the ML-DSA cosignature `signTreeHead` produces verifies -/
+theorem cosig_verifies (name hash m : Bytes) (wkey : PubKey) (n : Int) (cosigTime : Nat)
+    (hparse : parseCheckpoint (formatCheckpoint { origin := name, n := n, hash := hash, ext := [] }) =
+      some { origin := name, n := n, hash := hash, ext := [] })
+    (hnlen : 1 ≤ name.length ∧ name.length ≤ 255) (hco : cosigTime ≤ 9223372036854775807)
+    (hm : subtreeMessage name cosigTime name n.toNat hash = some m) :
+    cosigVerify symCv name wkey (formatCheckpoint { origin := name, n := n, hash := hash, ext := [] })
+      (toBE 8 cosigTime ++ symSign wkey m) = true := by
+  unfold cosigVerify
+  have hd : dec [.fixed 8] (toBE 8 cosigTime ++ symSign wkey m) = some ([toBE 8 cosigTime], symSign wkey m) := by
+    have := dec_enc [.fixed 8] [toBE 8 cosigTime] (symSign wkey m)
+      (by simp only [Fits, Field.fits, toBE_length]; exact ⟨trivial, trivial⟩)
+    simpa [enc, encField] using this
+  rw [hd]
+  simp only
+  have hfb : fromBE (toBE 8 cosigTime) = cosigTime := fromBE_toBE 8 _ (by
+    have : (256:Nat)^8 = 18446744073709551616 := by decide
+    omega)
+  rw [hfb, if_neg (by unfold maxInt64; omega), hparse]
+  simp only [ne_eq, not_true_eq_false, if_false]
+  rw [if_neg (by omega)]
+  simp only [hm]
+  exact symCv_self _ _
+
+/-- `note.Open` on: unknown-key lines, then one genuine signature for each of two distinct known keys (either order) -/
+theorem noteOpen_two (v1 v2 : NoteVerifier) (text : Bytes) (g : List SigLine) (rs ws : SigLine) (swap : Bool)
+    (hname : v1.name = v2.name) (hhash : v1.hash ≠ v2.hash)
+    (hrs : rs.name = v1.name ∧ rs.hash = v1.hash) (hws : ws.name = v2.name ∧ ws.hash = v2.hash)
+    (hv1 : v1.verify text rs.sig = true) (hv2 : v2.verify text ws.sig = true)
+    (hg : ∀ s ∈ g, [v1, v2].filter (fun v => v.name = s.name ∧ v.hash = s.hash) = []) (hgl : g.length ≤ 98) :
+    noteOpen [v1, v2] { text := text, sigs := g ++ (if swap then [ws, rs] else [rs, ws]) } =
+      .ok (if swap then [ws, rs] else [rs, ws]) := by
+  have hf1 : [v1, v2].filter (fun v => v.name = rs.name ∧ v.hash = rs.hash) = [v1] := by
+    have : ¬ (v2.name = rs.name ∧ v2.hash = rs.hash) := by
+      intro h; exact hhash (by rw [hrs.2] at h; exact h.2.symm)
+    simp only [List.filter_cons, List.filter_nil, hrs.1, hrs.2, and_self, decide_true, if_true]
+    rw [if_neg (by simpa [hrs.1, hrs.2] using this)]
+  have hf2 : [v1, v2].filter (fun v => v.name = ws.name ∧ v.hash = ws.hash) = [v2] := by
+    have : ¬ (v1.name = ws.name ∧ v1.hash = ws.hash) := by
+      intro h; exact hhash (by rw [hws.2] at h; exact h.2)
+    simp only [List.filter_cons, List.filter_nil, hws.1, hws.2, and_self, decide_true, if_true]
+    rw [if_neg (by simpa [hws.1, hws.2] using this)]
+  have hne : (rs.name, rs.hash) ≠ (ws.name, ws.hash) := by
+    intro h
+    have := (Prod.mk.inj h).2
+    rw [hrs.2, hws.2] at this
+    exact hhash this
+  unfold noteOpen
+  simp only
+  rw [openLoop_skip _ _ g _ 0 [] [] hg (by omega)]
+  have hc1 : ¬ (0 + g.length + 1 > 100) := by omega
+  have hc2 : ¬ (0 + g.length + 1 + 1 > 100) := by omega
+  cases swap with
+  | false =>
+    simp only [Bool.false_eq_true, if_false]
+    rw [openLoop, if_neg hc1, hf1]
+    simp only [List.contains_nil, Bool.false_eq_true, if_false, hv1, if_true]
+    rw [openLoop, if_neg hc2, hf2]
+    have : ((rs.name, rs.hash) :: ([] : List (Bytes × Nat))).contains (ws.name, ws.hash) = false := by
+      simp [Ne.symm hne]
+    simp only [this, Bool.false_eq_true, if_false, hv2, if_true, openLoop]
+    simp
+  | true =>
+    simp only [if_true]
+    rw [openLoop, if_neg hc1, hf2]
+    simp only [List.contains_nil, Bool.false_eq_true, if_false, hv2, if_true]
+    rw [openLoop, if_neg hc2, hf1]
+    have : ((ws.name, ws.hash) :: ([] : List (Bytes × Nat))).contains (rs.name, rs.hash) = false := by
+      simp [hne]
+    simp only [this, Bool.false_eq_true, if_false, hv1, if_true, openLoop]
+    simp
+
+end Checkpoint
+
+namespace Checkpoint
+open Codec TilePath
+
+/-- `signTreeHead` step by step, given that its intermediate values are what they should be -/
+theorem signTreeHead_eq (c : Config) (n time : Int) (hash sth text blob wsig m : Bytes) (cosigTime : Nat)
+    (grease : List SigLine) (swap : Bool)
+    (hsth : sthInput (u64 n) (u64 time) hash = some sth) (hsl : (symSign c.key sth).length < 65536)
+    (htx : formatCheckpoint { origin := c.name, n := n, hash := hash, ext := [] } = text)
+    (hblob : injectedBlob time (4 :: 3 :: (toBE 2 (symSign c.key sth).length ++ symSign c.key sth)) = blob)
+    (hver : verifier symCv c.name c.key text blob = true)
+    (hparse : parseCheckpoint text = some { origin := c.name, n := n, hash := hash, ext := [] })
+    (hnlen : 1 ≤ c.name.length ∧ c.name.length ≤ 255) (hn0 : 0 ≤ n)
+    (hm : subtreeMessage c.name cosigTime c.name n.toNat hash = some m)
+    (hwe : toBE 8 cosigTime ++ symSign c.witnessKey m = wsig) :
+    signTreeHead symCv symSign c n time hash cosigTime grease swap =
+      some { text := text, sigs := (grease.filter fun s => !(s.name = c.name ∧ (s.hash = c.keyHash ∨ s.hash = c.witnessKeyHash))) ++
+        (if swap then [{ name := c.name, hash := c.witnessKeyHash, sig := wsig }, { name := c.name, hash := c.keyHash, sig := blob }]
+         else [{ name := c.name, hash := c.keyHash, sig := blob }, { name := c.name, hash := c.witnessKeyHash, sig := wsig }]) } := by
+  unfold signTreeHead
+  rw [hsth]
+  simp only
+  rw [digitallySigned_eq _ hsl]
+  simp only
+  unfold injectedSign
+  simp only
+  rw [hblob, htx, hver]
+  simp only [if_true]
+  rw [hparse]
+  simp only
+  have hcond : ¬ (text ≠ formatCheckpoint { origin := c.name, n := n, hash := hash, ext := [] } ∨
+      c.name.length = 0 ∨ c.name.length > 255) := by
+    rw [htx]; intro h; rcases h with h | h | h
+    · exact h rfl
+    · omega
+    · omega
+  rw [if_neg hcond, hm]
+  simp only [hwe]
+
+end Checkpoint
+
+namespace Checkpoint
+open Codec TilePath
+
+/-- `openCheckpoint` on the note `signTreeHead` builds, given that the two signatures verify -/
+theorem openCheckpoint_signed (c : Config) (n time now : Int) (hash text blob wsig : Bytes) (grease : List SigLine) (swap : Bool)
+    (hhash : c.keyHash ≠ c.witnessKeyHash) (hgl : grease.length ≤ 98)
+    (hver : verifier symCv c.name c.key text blob = true)
+    (hcos : cosigVerify symCv c.name c.witnessKey text wsig = true)
+    (hparse : parseCheckpoint text = some { origin := c.name, n := n, hash := hash, ext := [] })
+    (hts : sigTimestamp blob = some time) (hnow : time ≤ now) :
+    openCheckpoint symCv c now
+      { text := text, sigs := (grease.filter fun s => !(s.name = c.name ∧ (s.hash = c.keyHash ∨ s.hash = c.witnessKeyHash))) ++
+        (if swap then [{ name := c.name, hash := c.witnessKeyHash, sig := wsig }, { name := c.name, hash := c.keyHash, sig := blob }]
+         else [{ name := c.name, hash := c.keyHash, sig := blob }, { name := c.name, hash := c.witnessKeyHash, sig := wsig }]) } =
+      .ok ({ origin := c.name, n := n, hash := hash, ext := [] }, time) := by
+  have hgunk : ∀ s ∈ (grease.filter fun s => !(s.name = c.name ∧ (s.hash = c.keyHash ∨ s.hash = c.witnessKeyHash))),
+      [rfc6962Verifier symCv c, cosigVerifier symCv c].filter (fun v => v.name = s.name ∧ v.hash = s.hash) = [] := by
+    intro s hs
+    have hs2 := (List.mem_filter.mp hs).2
+    simp only [Bool.not_eq_true', decide_eq_false_iff_not, not_and, not_or] at hs2
+    simp only [rfc6962Verifier, cosigVerifier, List.filter_cons, List.filter_nil]
+    by_cases hname : c.name = s.name
+    · have := hs2 hname.symm
+      have h1 : ¬ (c.keyHash = s.hash) := fun h => this.1 h.symm
+      have h2 : ¬ (c.witnessKeyHash = s.hash) := fun h => this.2 h.symm
+      simp [hname, h1, h2]
+    · simp [hname]
+  have hglen := Nat.le_trans (List.length_filter_le (fun s : SigLine => !(s.name = c.name ∧ (s.hash = c.keyHash ∨ s.hash = c.witnessKeyHash))) grease) hgl
+  have hopen := noteOpen_two (rfc6962Verifier symCv c) (cosigVerifier symCv c) text _
+    { name := c.name, hash := c.keyHash, sig := blob } { name := c.name, hash := c.witnessKeyHash, sig := wsig } swap
+    rfl hhash ⟨rfl, rfl⟩ ⟨rfl, rfl⟩ hver hcos hgunk hglen
+  unfold openCheckpoint openCheckpointWith
+  rw [hopen]
+  simp only
+  have hfilt : (if swap then [({ name := c.name, hash := c.witnessKeyHash, sig := wsig } : SigLine), { name := c.name, hash := c.keyHash, sig := blob }]
+       else [{ name := c.name, hash := c.keyHash, sig := blob }, { name := c.name, hash := c.witnessKeyHash, sig := wsig }]).filter
+       (fun s => s.hash = (rfc6962Verifier symCv c).hash) = [{ name := c.name, hash := c.keyHash, sig := blob }] := by
+    have h1 : ¬ c.witnessKeyHash = c.keyHash := fun h => hhash h.symm
+    cases swap <;> simp [rfc6962Verifier, List.filter_cons, h1]
+  rw [hfilt]
+  simp only [hts, hparse]
+  rw [if_neg (by omega)]
+  simp
+
+end Checkpoint
+
+namespace Checkpoint
+open Codec TilePath
+
+theorem sign_opens (c : Config) (n time : Int) (hash : Bytes) (cosigTime : Nat) (grease : List SigLine) (swap : Bool)
+    (now : Int) (pre : SignPre c n time hash cosigTime grease) (hnow : time ≤ now) :
+    ∃ note, signTreeHead symCv symSign c n time hash cosigTime grease swap = some note ∧
+      note.text = formatCheckpoint { origin := c.name, n := n, hash := hash, ext := [] } ∧
+      openCheckpoint symCv c now note = .ok ({ origin := c.name, n := n, hash := hash, ext := [] }, time) ∧
+      (∃ s ∈ note.sigs, s.name = c.name ∧ s.hash = c.keyHash ∧ sigTimestamp s.sig = some time ∧
+        verifier symCv c.name c.key note.text s.sig = true) ∧
+      (∃ s ∈ note.sigs, s.name = c.name ∧ s.hash = c.witnessKeyHash ∧
+        cosigVerify symCv c.name c.witnessKey note.text s.sig = true) := by
+  obtain ⟨hnl, hnlen, hk, hkid, hhash, ⟨hn0, hn1⟩, ⟨ht0, ht1⟩, hh, hco, hgl⟩ := pre
+  have hparse := parse_format c.name hash n hnl (by omega) hn0 hn1 hh
+  have hun : u64 n = n.toNat := u64_of_nonneg hn0 hn1
+  have hut : u64 time = time.toNat := u64_of_nonneg ht0 ht1
+  obtain ⟨sth, hsth⟩ : ∃ sth, sthInput n.toNat time.toNat hash = some sth := by
+    unfold sthInput; rw [if_pos hh]; exact ⟨_, rfl⟩
+  have hsl : (symSign c.key sth).length < 65536 := by
+    rw [symSign_length, sthInput_length hsth]; omega
+  obtain ⟨hpx, hver⟩ := rfc_sig_verifies c.name hash sth c.key n time hparse hk ht0 ht1 hsth hsl
+  obtain ⟨m, hm⟩ := subtreeMessage_some c.name c.name hash cosigTime n.toNat hnlen hnlen.2 hco hh
+  have hcos := cosig_verifies c.name hash m c.witnessKey n cosigTime hparse hnlen hco hm
+  have htsx : sigTimestamp (NoteSig.encode { timestamp := time.toNat, hashAlg := 4, sigAlg := 3, signature := symSign c.key sth }) = some time := by
+    rw [sigTimestamp_encode _ (by show time.toNat ≤ _; omega)]
+    show some (Int.ofNat time.toNat) = some time
+    congr 1
+    exact Int.toNat_of_nonneg ht0
+  have hblob : injectedBlob time (4 :: 3 :: (toBE 2 (symSign c.key sth).length ++ symSign c.key sth)) =
+      NoteSig.encode { timestamp := time.toNat, hashAlg := 4, sigAlg := 3, signature := symSign c.key sth } := by
+    rw [injectedBlob_eq, hut]
+  have hsign := signTreeHead_eq c n time hash sth _ _ _ m cosigTime grease swap (by rw [hun, hut]; exact hsth) hsl rfl hblob
+    hver hparse hnlen hn0 hm rfl
+  have hopen := openCheckpoint_signed c n time now hash _ _ _ grease swap hhash hgl hver hcos hparse htsx hnow
+  refine ⟨_, hsign, rfl, hopen, ?_, ?_⟩
+  · refine ⟨{ name := c.name, hash := c.keyHash, sig := _ }, ?_, rfl, rfl, htsx, hver⟩
+    apply List.mem_append_right
+    cases swap
+    · exact List.mem_cons_self
+    · exact List.mem_cons_of_mem _ List.mem_cons_self
+  · refine ⟨{ name := c.name, hash := c.witnessKeyHash, sig := _ }, ?_, rfl, rfl, hcos⟩
+    apply List.mem_append_right
+    cases swap
+    · exact List.mem_cons_of_mem _ List.mem_cons_self
+    · exact List.mem_cons_self
+
+end Checkpoint
